@@ -544,41 +544,88 @@ func c20Delivery(p *Program, r *Report) {
 	}
 	r.Check(okS, "delivery goes through the mailbox exactly once carrying the original message", s.TellFn.Pos(), "every path of the delivery routine performs exactly one Tell/TellSelf of a SchedulerMessage whose Message is the scheduled value (Tell to the given receiver)")
 	// receiver side: the handler for SchedulerMessage replaces the envelope's message by message.Message and runs the behaviour
-	var onSched *ssa.Function
+	// the store `envelope = replaced(envelope, m.Message)` with m a *SchedulerMessage (a handler's parameter, or the value
+	// of the type-switch case when the handler is written inline), followed on every path by exactly one behaviour run
+	okR := false
+	pos := token.NoPos
 	for _, fn := range p.methodsOf(lc.Ctx) {
-		if fn.Parent() == nil && len(fn.Params) >= 2 && namedOf(fn.Params[1].Type()) == s.MsgT {
-			onSched = fn
+		if fn.Parent() != nil {
+			continue
 		}
-	}
-	okR := onSched != nil
-	if onSched != nil {
-		og := p.ig(onSched)
-		run := nodesWhere(og, func(in ssa.Instruction) bool { c := callOf(in); return c != nil && c.StaticCallee() == lc.ExecRecover })
-		okR = len(run) == 1 && !anyIn(og.Reach(og.entry(), run, nil), og.Exits)
-		repl := false
-		for _, in := range og.Nodes {
-			if st, isSt := in.(*ssa.Store); isSt {
-				if f, _ := fieldAddr(st.Addr); f != nil && f.Name() == "envelop" {
-					if c, isC := strip(st.Val).(*ssa.Call); isC {
-						for _, a := range c.Call.Args {
-							if fl, base := fieldLoad(strip(a)); fl != nil && fl.Name() == "Message" && strip(base) == ssa.Value(onSched.Params[1]) {
-								repl = true
+		og := p.ig(fn)
+		for si, in := range og.Nodes {
+			st, isSt := in.(*ssa.Store)
+			if !isSt {
+				continue
+			}
+			if f, _ := fieldAddr(st.Addr); f == nil || f.Name() != "envelop" || fieldVar(lc.Ctx, f.Name()) != f {
+				continue
+			}
+			c, isC := strip(st.Val).(*ssa.Call)
+			if !isC {
+				continue
+			}
+			unwraps := false
+			for _, a := range c.Call.Args {
+				if fl, base := fieldLoad(strip(a)); fl != nil && fl.Name() == "Message" && base != nil && namedOf(base.Type()) == s.MsgT {
+					unwraps = true
+				}
+			}
+			if !unwraps {
+				continue
+			}
+			pos = st.Pos()
+			run := nodesWhere(og, func(in2 ssa.Instruction) bool { c2 := callOf(in2); return c2 != nil && c2.StaticCallee() == lc.ExecRecover })
+			// the region in which the scheduled message is being handled: the whole handler when it is a parameter, the
+			// type-switch case otherwise (nodes dominated by the ok edge of the assertion to *SchedulerMessage)
+			inRegion := func(n int) bool { return true }
+			hasParam := false
+			for _, prm := range fn.Params {
+				if namedOf(prm.Type()) == s.MsgT {
+					hasParam = true
+				}
+			}
+			if !hasParam {
+				okE := map[edge]bool{}
+				for _, ifi := range og.ifs() {
+					for _, outcome := range []bool{true, false} {
+						f, okf := condFact(ifi.Cond, outcome)
+						if okf && f.Bool && f.Op == token.NEQ {
+							if ex, isEx := f.X.(*ssa.Extract); isEx && ex.Index == 1 {
+								if ta, isTA := ex.Tuple.(*ssa.TypeAssert); isTA && namedOf(ta.AssertedType) == s.MsgT {
+									okE[og.branchEdge(ifi, outcome)] = true
+								}
 							}
 						}
 					}
-					for r2 := range run {
-						if !og.DominatedByNodes(r2, setOf(og.Idx[in])) {
-							repl = false
-						}
+				}
+				inRegion = func(n int) bool { return len(okE) > 0 && og.DominatedByEdges(n, okE) }
+			}
+			after := og.ReachAfter(si, nil, nil)
+			runAfter := map[int]bool{}
+			good0 := true
+			for n := range run {
+				if after[n] {
+					runAfter[n] = true
+				}
+				// every behaviour run made while handling the scheduled message sees the unwrapped message
+				if inRegion(n) && !og.DominatedByNodes(n, setOf(si)) {
+					good0 = false
+				}
+			}
+			good := good0 && len(runAfter) > 0 && !anyIn(og.ReachAfter(si, runAfter, nil), og.Exits)
+			for a := range runAfter {
+				ra := og.ReachAfter(a, nil, nil)
+				for b := range runAfter {
+					if ra[b] {
+						good = false
 					}
 				}
 			}
+			if good {
+				okR = true
+			}
 		}
-		okR = okR && repl
-	}
-	pos := token.NoPos
-	if onSched != nil {
-		pos = onSched.Pos()
 	}
 	r.Check(okR, "receiver unwraps the scheduled message before running the behaviour", pos, "the SchedulerMessage handler installs message.Message as the current message and then runs the behaviour exactly once")
 }
